@@ -138,7 +138,8 @@ class Job:
                  flags=(), kind='obligation', timeout=600, mem_gb=6, decisive=None, sample=None,
                  native=True, native_globalize=(), group=None, checks=True, object_bits=None, cost=1,
                  expect_fail_desc=None, harness_text=None, funcs=(), nowitness=False, native_libs=('-lblkid', '-lpthread'),
-                 solver='kissat', native_defines=(), cflags=()):
+                 solver='kissat', native_defines=(), cflags=(), finding_key=None):
+        self.finding_key = finding_key
         self.cflags = list(cflags)
         self.name = name
         self.harness = [harness] if isinstance(harness, str) else list(harness)  # paths relative to VERIF/harness or absolute
@@ -464,6 +465,17 @@ def run_job(job, log):
             rs, ro = native_replay(job, d, tape, tp)
             res['replay'] = rs; res['replay_out'] = ro[-1500:]
 
+    if job.kind == 'known':
+        # witness of a defect listed in known_findings.txt: the harness is restricted to the listed failing region
+        if not failing:
+            res['status'] = 'known-absent'
+            log('[%s] listed finding no longer reproduces (UNSAT on its region)' % job.name)
+            return res
+        res['status'] = 'known-present'
+        if job.native:
+            get_trace_and_replay(failing[0])
+        log('[%s] known finding still present (%.1fs)%s' % (job.name, wall, (' replay=' + str(res.get('replay'))) if 'replay' in res else ''))
+        return res
     if job.kind == 'negctl':
         if not failing:
             res['status'] = 'broken'; res['detail'] = 'negative control came back UNSAT: harness cannot see a wrong oracle'
@@ -575,6 +587,7 @@ def finish(prop, tier, seed, jobs, t0, level='model_checking', assumptions=(), t
     discharged = [j for j in obligations if j.result and j.result['status'] == 'pass']
     undecided = [j for j in jobs if j.result and j.result['status'] == 'undecided']
     broken = [j for j in jobs if (not j.result) or j.result['status'] == 'broken']
+    knownjobs = [j for j in jobs if j.kind == 'known']
     cex = [j for j in obligations if j.result and j.result['status'] == 'cex']
     viol = []
     known_hit = []
@@ -621,7 +634,8 @@ def finish(prop, tier, seed, jobs, t0, level='model_checking', assumptions=(), t
             'broken': [j.name + ': ' + str((j.result or {}).get('detail'))[:300] for j in broken],
             'engine_disagreements': [j.name for j in disagreements],
             'ub_reports_not_decisive': sorted(set(x for j in jobs for x in (j.result or {}).get('ub_reports', [])))[:40],
-            'known_findings_hit': [k['key'] for _, k in known_hit],
+            'known_findings_hit': sorted(set(k['key'] for _, k in known_hit)),
+            'known_finding_witnesses': [{'job': j.name, 'status': (j.result or {}).get('status'), 'replay': (j.result or {}).get('replay')} for j in knownjobs],
             'traces_validated_against_impl': traces_validated,
             'functions_encoded': funcs,
             'bounds': bounds or {},
@@ -645,7 +659,14 @@ def finish(prop, tier, seed, jobs, t0, level='model_checking', assumptions=(), t
     if write:
         os.makedirs(os.path.join(VERIF, 'evidence'), exist_ok=True)
         json.dump(ev, open(os.path.join(VERIF, 'evidence', prop + '.json'), 'w'), indent=1)
+    for j in jobs:
+        if j.kind == 'known' and j.result and j.result['status'] == 'known-present' and j.finding_key in kf:
+            known_hit.append((j, kf[j.finding_key]))
+    seen = set()
     for j, k in known_hit:
+        if k['key'] in seen:
+            continue
+        seen.add(k['key'])
         print('KNOWN-FINDING: property=%s %s [%s]' % (prop, k['text'], k['key']))
     for j in disagreements:
         print('engine-disagreement (not a verdict): %s %s native=%s' % (j.name, j.result.get('cex_property'), j.result.get('replay')))
